@@ -14,7 +14,8 @@ OWN = {"cross.rc": PROP, "cross.value": PROP, "cross.consumed": PROP}
 
 def specs_for(ctx):
     f = ctx.pick(0.5, 1.0)
-    return [codec.spec("c", "c/any", {}, True), codec.spec("c", "c/little", {"target_endianness": "little"}, True, frac=f),
+    # c/little sees every type: the little-endian option switches on the bulk-copy fast paths, the delicate part for memory safety
+    return [codec.spec("c", "c/any", {}, True), codec.spec("c", "c/little", {"target_endianness": "little"}, True),
             codec.spec("cpp", "cpp/c++14", {}, True, std="c++14"), codec.spec("cpp", "cpp/c++17", {}, True, std="c++17", frac=f),
             codec.spec("cpp", "cpp/c++17-pmr", {}, True, std="c++17-pmr", frac=f)]
 
@@ -22,7 +23,7 @@ def specs_for(ctx):
 def run(ctx):
     types = codec.universe(ctx, ctx.pick(40, 400), ctx.pick(1, 2))
     if ctx.quick:
-        types = types[::2]
+        types = types[::2] + [t for t in types[1::2] if any(x in codec.dsdl.features(t) for x in ("varr", "farr", "farr-of-bool", "varr-of-bool")) and len(t["fields"]) <= 3][:40]
     codec.mark_services(types)
     camp = codec.Campaign(ctx, types, specs_for(ctx), with_py=False, batch=ctx.pick(30, 40))
     camp.build()
@@ -47,7 +48,7 @@ def run(ctx):
     for ti, t in enumerate(camp.types):
         maxb = codec.dsdl.max_bits_body(t) // 8
         for data, why in codec.byte_strings(rng, valid.get(ti, [])[:3], maxb, ctx.pick(4, 10), not ctx.quick):
-            if why == "truncated" and rng.random() < 0.5 and ctx.quick:
+            if why in ("bitflip", "byteset", "extended") and rng.random() < 0.5 and ctx.quick:
                 continue
             dcases.append({"ti": ti, "data": data, "why": why, "case": camp.new_case(), "null": why == "null", "priors": (0, 1, 2), "per_target": True})
     res = camp.des_events(dcases)
